@@ -70,6 +70,15 @@ def load(repo="/repo"):
         if need not in bits:
             raise ModelError("StdLib::%s not found in mlua's stdlib.rs" % need)
     model["bits"] = bits
+    # `contains` is an INTERSECTION test in this mlua (not a superset test); read, not assumed
+    m = re.search(r"pub fn contains\(self, lib: Self\) -> bool \{\s*([^}]*?)\s*\}", st)
+    body = re.sub(r"\s+", "", m.group(1)) if m else None
+    if body == "(self&lib).0!=0":
+        model["contains"] = "intersects"
+    elif body in ("(self&lib).0==lib.0", "(self&lib)==lib", "self.0&lib.0==lib.0"):
+        model["contains"] = "superset"
+    else:
+        raise ModelError("StdLib::contains has an unexpected body in mlua's stdlib.rs: %r" % body)
 
     # ---- bit -> luaopen_* (raw.rs), base library always opened
     raw = open(os.path.join(md, "src/state/raw.rs")).read()
